@@ -290,6 +290,14 @@ var Constructed = []string{
 	"7k/8/8/8/p7/P2n3p/1r6/3K4 w - - 0 1",
 	"k7/8/8/p7/7p/4n2P/6r1/4K3 w - - 0 1",
 	"7k/8/8/8/p6p/P6P/2q5/K7 w - - 0 1",
+	// the only legal move is an en-passant capture whose landing square closes a king-slider line
+	// (capture along a diagonal pin; king and rook/queen on the pushed pawn's file), and two capturers
+	// of which the one on the lower square is pinned
+	"6b1/8/8/3Pp3/8/2q5/K7/2k5 w - e6 0 1",
+	"2b5/8/8/4pPk1/8/7K/8/6q1 w - e6 0 1",
+	"4r3/8/3p4/3Pp3/8/8/2q3k1/4K3 w - e6 0 1",
+	"4q3/8/5p2/4pP2/8/8/2q3k1/4K3 w - e6 0 1",
+	"bk6/8/5p2/3PpP2/8/6q1/8/7K w - e6 0 1",
 	// outside `valid`: the check passes through the en-passant square (DESIGN.md 4.3)
 	"8/4q3/1K3q2/1Pp5/k7/8/8/b7 w - c6 0 1",
 }
